@@ -9,3 +9,4 @@ void _ZSt25__throw_bad_function_callv(void){ vll_fatal_ok = 0; vll_abort(); }
 void _ZSt16__throw_bad_castv(void){ vll_fatal_ok = 0; vll_abort(); }
 const char* _ZNKSt9bad_alloc4whatEv(void* self){ return "std::bad_alloc"; }
 const char* _ZNKSt9exception4whatEv(void* self){ return "std::exception"; }
+void _ZSt20__throw_system_errori(int e){ vll_fatal_ok = 0; vll_abort(); }
